@@ -1,17 +1,8 @@
 INIT Init
 NEXT Next
 CONSTANTS
-  Signs <- Both
-  Sigs <- SigUnc
-  Exps <- ExpUnc
-  Precs = {}
-  UncSigs <- USig
-  UncOffs = {0, 1, 3, 8}
-  UncPrecs = {1, 2, 3}
-  Units = {}
-  Convs = {}
-  UncSrcs = {"arg"}
-  RomanMax = 0
+  SliceTable <- AllSlices
+  SliceNames = {"uncert_q"}
 INVARIANT TypeOK
 INVARIANT RoundCarries
 INVARIANT ModelNumberDenotes
